@@ -46,7 +46,7 @@ impl Prop for C04 {
         vec![
             "no formal specification exists (PROTOCOLS.md): the encoders follow the node-gamedig reading named there".into(),
             "GameSpy 1: player indices are contiguous from 0, a key/value pair is never split across parts, keys and values contain no backslash or NUL".into(),
-            "GameSpy 2: the reply is one datagram of at most 1024 bytes; a zero-row table is `00 00` without column heads (as implemented)".into(),
+            "GameSpy 2: the reply is one datagram of at most 4096 bytes; a zero-row table is `00 00` without column heads (as implemented)".into(),
             "GameSpy 3: item strings (player and team names) are non-empty; all key/values are in packet 0; a challenge of 0 means none".into(),
             "numeric text fits the response field it is parsed into; password/tournament texts are from {0,1,true,false} in either case".into(),
         ]
